@@ -10,8 +10,6 @@ def _create_coxeter_generators (n : Int) : Option (List (List Int)) := do
   let t_2 ← List.mapM (fun k => do let t_1 ← Cv.PyGen.Perm.transposition n k (k + (1 : Int)); pure t_1) (pyRange (0 : Int) (n - (1 : Int)) (1 : Int))
   pure t_2
 
--- NOT TRANSLATED `prepare_graph`: star arguments
-
 /-- translated from `graphs_lib.py:all_transpositions` -/
 def all_transpositions (n : Int) : Option (RawDef) := do
   pyAssert (decide (n ≥ (2 : Int)))
@@ -466,8 +464,6 @@ def derangements (n : Int) : Option (RawDef) := do
   let name : String := ("derangements-" ++ pyStr n)
   pure (RawDef.mk generators (some (pyRange (0 : Int) n (1 : Int))) (some generator_names) (some name))
 
--- NOT TRANSLATED `involutive_derangements`: local function generate_matchings uses outer variables ['first', 'generate_matchings', 'i', 'matching', 'partner', 'remaining', 'result']
-
 /-- translated from `graphs_lib.py:stars` -/
 def stars (n : Int) : Option (RawDef) := do
   pyAssert (decide (n ≥ (3 : Int)))
@@ -602,8 +598,6 @@ def rapaport_m2 (n : Int) : Option (RawDef) := do
   let generator_names : List String := ["(0,1)", "EvenDisjTrans", "OddDisjTrans"]
   let name : String := ("rapaport_m2-" ++ pyStr n)
   pure (RawDef.mk generators (some (pyRange (0 : Int) n (1 : Int))) (some generator_names) (some name))
-
--- NOT TRANSLATED `all_cycles`: call of min
 
 /-- default value of `lsl_cycles(add_inverses=…)` in the source -/
 def lsl_cycles_default_add_inverses : Bool := true
@@ -810,10 +804,6 @@ def consecutive_k_cycles (n : Int) (k : Int) : Option (RawDef) := do
   let name : String := ("consecutive_k_cycles-" ++ pyStr n ++ "-" ++ pyStr k)
   pure (RawDef.mk generators (some (pyRange (0 : Int) n (1 : Int))) (some generator_names) (some name))
 
--- NOT TRANSLATED `conjugacy_classes`: annotation dict[tuple[int], Union[int, None]]
-
--- NOT TRANSLATED `rand_generators`: call of factorial
-
 /-- translated from `graphs_lib.py:down_cycles` -/
 def down_cycles (n : Int) : Option (RawDef) := do
   pyAssert (decide (n ≥ (2 : Int)))
@@ -858,5 +848,15 @@ def prefix_cycles (n : Int) : Option (RawDef) := do
   let generator_names := st.2
   let name : String := ("prefix_cycles-" ++ pyStr n)
   pure (RawDef.mk generators (some (pyRange (0 : Int) n (1 : Int))) (some generator_names) (some name))
+
+-- NOT TRANSLATED `prepare_graph`: not translated: star arguments
+
+-- NOT TRANSLATED `involutive_derangements`: not translated: local function generate_matchings uses outer variables ['first', 'generate_matchings', 'i', 'matching', 'partner', 'remaining', 'result']
+
+-- NOT TRANSLATED `all_cycles`: not translated: call of min
+
+-- NOT TRANSLATED `conjugacy_classes`: not translated: annotation dict[tuple[int], Union[int, None]]
+
+-- NOT TRANSLATED `rand_generators`: not translated: call of factorial
 
 end Cv.PyGen.Fam
